@@ -2,6 +2,7 @@
 import json
 import os
 
+import c15real
 import common as C
 import patterna as A
 from tree import load_history, load_meta
@@ -21,14 +22,18 @@ def short(h):
 
 
 def sig(clause, hist):
+    if hist and hist[-1].get("loader"):         # a trace of a real analysis: named by loader family, not by the (project-specific) history
+        e = hist[-1]
+        return "real:%s:%s:%s:%s" % (clause, e["loader"], e["stem"], "after_restore" if e.get("after_restore") else "in_run")
     return "%s:%s" % (clause, ";".join(short(h) for h in hist))
 
 
 def cfg_for(path):
     c = load_meta(path)["config"]
     out = os.path.join(os.path.dirname(path), os.path.basename(path) + ".cfg")
+    ids = "{1, 2, 3}" if not c.get("real") else "{%s}" % ", ".join(str(i) for i in range(0, c["n_ids"] + 1))
     return C.write_cfg(out, constants={
-        "Id": "{1, 2, 3}", "Content": "{0, 1, 2}", "None": "None",
+        "Id": ids, "Content": "{0, 1, 2}", "None": "None",
         "ItemCap": c["item_cap"], "BundleCap": c["bundle_cap"], "MaxRows": c["max_rows"],
         "MaxOps": 100000, "MaxBundles": 100000, "SaveDropsCachedItem": "TRUE", "SaveAdjustsLength": "TRUE",
         "PutsExportedBundleInCache": "TRUE" if c["puts_bundle"] else "FALSE"}, spec="TraceSpec")
@@ -67,6 +72,13 @@ def post_driver(summary, v):
             v.violation("write_failure_silent:%s" % pr["family"], pr)
 
 
+def real_part(out_dir, tier, v):
+    files, cov = c15real.run_part(out_dir, tier, v)
+    if not v.machinery and (cov["restored_histories"] < 5 or cov["events"] < 100):
+        v.machinery_failure("real analyses: only %d restored loader histories / %d events (vacuous)" % (cov["restored_histories"], cov["events"]))
+    return files, cov
+
+
 def run(tier, seed):
     runs, negs = mc_cfgs(tier)
     return A.run_component(
@@ -75,12 +87,19 @@ def run(tier, seed):
                      "restore is only exercised when nothing is dirty (export, then export_indexing, no save in between)",
                      "content fidelity is judged by family-specific canonical rows (unit-level rows, CFG edges)",
                      "a failed write counts as reported when export raises or prints", "TLC, CommunityModules Json"],
-        impl_name="LoaderImpl", post_driver=post_driver,
+        impl_name="LoaderImpl", post_driver=post_driver, extra_forests=real_part,
         rule="tree nodes are save/get/export/export_indexing/restore calls on real loader objects (ScopeHierarchyLoader, UnitGIRLoader, "
              "CFGLoader) with small cache capacities and MAX_ROWS; every get is judged by the contract; a trace = one root-to-leaf history")
 
 
 def replay(path):
+    with open(path) as f:
+        d = json.load(f)
+    if str(d.get("signature", "")).startswith("real:") or (d.get("replay", {}).get("config") or {}).get("real"):
+        print(json.dumps(d["replay"], indent=1)[:6000])
+        print("re-run: ./check C15 --tier quick   (the history above is one loader object of a real analysis; see harness/c15real.py)")
+        return 0
+
     def extra(doc):
         return {"config": doc["replay"]["config"]}
     return A.replay_component(PID, path, DRIVER, "LoaderTrace", cfg_for, sig, FIELDS, extra_doc=extra, show=("res", "crash", "proj"))
